@@ -20,8 +20,12 @@ def rand_payload(rnd, big=0.08):
         return bytes(rnd.getrandbits(8) for _ in range(n))
     if r < 0.5:
         return bytes(rnd.choice(b"abcdefghijklmnopqrstuvwxyz") for _ in range(rnd.randint(1, 12)))
-    if r < 0.6:
+    if r < 0.56:
         return "héllo wörld ✓".encode()[: rnd.randint(1, 18)]
+    if r < 0.62:
+        # longer text of multi-byte characters (what a payload printed with {:?} looks like matters
+        # to whatever the crate formats into an error or a log line)
+        return ("".join(rnd.choice(["日本語", "ключ", "żółć", "✓✗", "a", " "]) for _ in range(rnd.randint(8, 60)))).encode()
     return bytes(rnd.getrandbits(8) for _ in range(rnd.randint(1, 40)))
 
 
